@@ -9,6 +9,10 @@ F = "include/iora/network/detail/udp_engine.hpp"
 T = "include/iora/network/transport_types.hpp"
 
 
+MIRRORED = ["readFromListener", "onClient", "connectDo", "viaDo", "sendDo", "flushListener", "writeClient", "closeNow", "runGc",
+            "shutdownDrain", "updateListener", "updateClient", "process"]
+
+
 def _cfg_default(body, typ, name):
     m = re.search(r"%s\s+%s\s*\{([^{}]*)\}\s*;" % (typ, re.escape(name)), body)
     if not m:
@@ -161,5 +165,15 @@ def gen(repo):
     t += "/-- `sendDo`: the queue is over its cap when `wq.size() > maxWriteQueue` (true) or `>=` (false), tested after the push -/\n"
     t += "def clientOverflowStrict : Bool := %s\n" % _lb(ovf["s"] == ">")
     t += "def listenerOverflowStrict : Bool := %s\n" % _lb(ovf["lst"] == ">")
+    # ---- anchors: every C++ function a model definition mirrors must still exist; its body hash is recorded (a changed hash is
+    #      not an alarm — the lockstep decides — but it is visible in the evidence and in the diff of this file)
+    anchors = []
+    for fn in MIRRORED:
+        try:
+            anchors.append((fn, cxxscan.body_sha(cxxscan.function_body(src, fn))))
+        except cxxscan.ScanError:
+            raise TranslateError("mirrored function %s no longer exists in udp_engine.hpp" % fn)
+    t += "/-- mirrored functions (udp_engine.hpp) with the SHA-256 prefix of their comment-stripped, whitespace-normalised bodies -/\n"
+    t += "def anchors : List (String × String) := [%s]\n" % ", ".join('("%s", "%s")' % a for a in anchors)
     t += "end Iora.Gen.Udp\n"
     return "IoraModel/Gen/Udp.lean", t
